@@ -63,11 +63,11 @@ example : Core2.WF sample := by
     blocks, named or numbered; 30 instruction / terminator rows; operands that are locals or Core2 constants of any nesting; `wf` is a decidable
     predicate), the line readers followed by the translation of asm/local.go return exactly the function that was printed — so printing the
     result reproduces the text. -/
-theorem core3_roundtrip (useHex : Int → Bool) (f : Core3.Func) (h : Core3.wf f = true) :
+theorem core3_roundtrip (useHex : Int → Bool) (f : Core3.Func) (h : Core3.wf f = true) (hmd : Core3.mdWF useHex f = true) :
     Core3.parse (Core3.printFunc useHex f) = some f := by
   simp only [Core3.wf, Bool.and_eq_true] at h
   unfold Core3.parse
-  rw [Core3.readFunc_print useHex f h.1]
+  rw [Core3.readFunc_print useHex f h.1 hmd]
   exact Core3.translate_wf f h.1 h.2
 
 /-- non-vacuity: `define i32 @f(i32 %x, i32 %0) { e: %1 = add i32 %x, 7 / %c = icmp eq i32 %1, %0 / br i1 %c, label %2, label %2 //
@@ -77,36 +77,37 @@ theorem core3_roundtrip (useHex : Int → Bool) (f : Core3.Func) (h : Core3.wf f
     l: %4 = landingpad { i8*, i32 } cleanup catch i8* null / resume { i8*, i32 } %4 }` is well-formed -/
 def core3Sample : Core3.Func :=
   ⟨.int 32, [102], [(.int 32, .name [120]), (.int 32, .id 0)],
-   [⟨.name [101], [⟨some (.id 1), 0, [.flags [0, 1], .tyval (.int 32) (.loc (.name [120])), .val (.const (.int 7))], .none⟩,
-                  ⟨some (.name [99]), 13, [.tyval (.int 32) (.loc (.id 1)), .val (.loc (.id 0))], .none⟩],
-      ⟨none, 28, [.val (.loc (.name [99])), .lab (.id 2), .lab (.id 2)], .none⟩⟩,
-    ⟨.id 2, [⟨none, 24, [.flags [], .tyval (.int 32) (.loc (.id 1)), .tyval (.ptr (.int 32) 0) (.const .null), .okw none, .align (some 4)], .none⟩,
+   [⟨.name [101], [⟨some (.id 1), 0, [.flags [0, 1], .tyval (.int 32) (.loc (.name [120])), .val (.const (.int 7))], .none, []⟩,
+                  ⟨some (.name [99]), 13, [.tyval (.int 32) (.loc (.id 1)), .val (.loc (.id 0))], .none, []⟩],
+      ⟨none, 28, [.val (.loc (.name [99])), .lab (.id 2), .lab (.id 2)], .none, []⟩⟩,
+    ⟨.id 2, [⟨none, 24, [.flags [], .tyval (.int 32) (.loc (.id 1)), .tyval (.ptr (.int 32) 0) (.const .null), .okw none, .align (some 4)], .none, []⟩,
              -- store atomic volatile i32 %1, i32* null seq_cst, align 4 / fence acquire
-             ⟨none, 24, [.flags [0, 1], .tyval (.int 32) (.loc (.id 1)), .tyval (.ptr (.int 32) 0) (.const .null), .okw (some 5), .align (some 4)], .none⟩,
-             ⟨none, 88, [.kw 2], .none⟩,
+             ⟨none, 24, [.flags [0, 1], .tyval (.int 32) (.loc (.id 1)), .tyval (.ptr (.int 32) 0) (.const .null), .okw (some 5), .align (some 4)], .none, []⟩,
+             ⟨none, 88, [.kw 2], .none, []⟩,
              -- %a = load atomic i32, i32* null monotonic / %cx = cmpxchg weak i32* null, i32 %a, i32 7 acq_rel monotonic, align 8 / %rm = atomicrmw volatile umax i32* null, i32 %a seq_cst
-             ⟨some (.name [97]), 23, [.flags [0], .ty (.int 32), .tyval (.ptr (.int 32) 0) (.const .null), .okw (some 1), .align none], .none⟩,
+             ⟨some (.name [97]), 23, [.flags [0], .ty (.int 32), .tyval (.ptr (.int 32) 0) (.const .null), .okw (some 1), .align none], .none, []⟩,
              ⟨some (.name [99, 120]), 89, [.flags [0], .tyval (.ptr (.int 32) 0) (.const .null), .tyval (.int 32) (.loc (.name [97])), .tyval (.int 32) (.const (.int 7)),
-                .kw 4, .kw 1, .align (some 8)], .none⟩,
-             ⟨some (.name [114, 109]), 90, [.flags [0], .kw 11, .tyval (.ptr (.int 32) 0) (.const .null), .tyval (.int 32) (.loc (.name [97])), .kw 5, .align none], .none⟩],
-      ⟨none, 26, [.retv (some (.int 32, .loc (.id 1)))], .none⟩⟩,
+                .kw 4, .kw 1, .align (some 8)], .none, []⟩,
+             ⟨some (.name [114, 109]), 90, [.flags [0], .kw 11, .tyval (.ptr (.int 32) 0) (.const .null), .tyval (.int 32) (.loc (.name [97])), .kw 5, .align none], .none, []⟩],
+      ⟨none, 26, [.retv (some (.int 32, .loc (.id 1)))], .none, []⟩⟩,
     ⟨.name [115], [],
-      ⟨none, 82, [.tyval (.int 32) (.loc (.id 1)), .lab (.id 2)], .cases [(.int 32, .int 3, .id 2), (.int 32, .int (-1), .name [115])]⟩⟩,
+      ⟨none, 82, [.tyval (.int 32) (.loc (.id 1)), .lab (.id 2)], .cases [(.int 32, .int 3, .id 2), (.int 32, .int (-1), .name [115])], []⟩⟩,
     ⟨.name [105], [],
-      ⟨some (.id 3), 84, [.ty (.int 32), .val (.glob [102]), .tyvals [(.int 32, .loc (.id 1)), (.int 32, .const (.int 7))]], .dests (.id 2) (.name [108])⟩⟩,
+      ⟨some (.id 3), 84, [.ty (.int 32), .val (.glob [102]), .tyvals [(.int 32, .loc (.id 1)), (.int 32, .const (.int 7))]], .dests (.id 2) (.name [108]), []⟩⟩,
     -- indirectbr i8* null, [label %2, label %s] //
     -- cs: %4 = catchswitch within none [label %cp] unwind to caller // cp: %5 = catchpad within %4 [i32 7] / catchret from %5 to label %2 //
     -- cl: %6 = cleanuppad within %5 [] / cleanupret from %6 unwind label %cs
-    ⟨.name [105, 98], [], ⟨none, 91, [.tyval (.ptr (.int 8) 0) (.const .null), .labs [.id 2, .name [115]]], .none⟩⟩,
-    ⟨.name [99, 115], [], ⟨some (.id 4), 92, [.pad none, .labs [.name [99, 112]], .unwind none], .none⟩⟩,
-    ⟨.name [99, 112], [⟨some (.id 5), 95, [.loc (.id 4), .tyvals [(.int 32, .const (.int 7))]], .none⟩],
-      ⟨none, 93, [.loc (.id 5), .lab (.id 2)], .none⟩⟩,
-    ⟨.name [99, 108], [⟨some (.id 6), 96, [.pad (some (.id 5)), .tyvals []], .none⟩],
-      ⟨none, 94, [.loc (.id 6), .unwind (some (.name [99, 115]))], .none⟩⟩,
+    ⟨.name [105, 98], [], ⟨none, 91, [.tyval (.ptr (.int 8) 0) (.const .null), .labs [.id 2, .name [115]]], .none, []⟩⟩,
+    ⟨.name [99, 115], [], ⟨some (.id 4), 92, [.pad none, .labs [.name [99, 112]], .unwind none], .none, []⟩⟩,
+    ⟨.name [99, 112], [⟨some (.id 5), 95, [.loc (.id 4), .tyvals [(.int 32, .const (.int 7))]], .none, []⟩],
+      ⟨none, 93, [.loc (.id 5), .lab (.id 2)], .none, []⟩⟩,
+    ⟨.name [99, 108], [⟨some (.id 6), 96, [.pad (some (.id 5)), .tyvals []], .none, []⟩],
+      ⟨none, 94, [.loc (.id 6), .unwind (some (.name [99, 115]))], .none, []⟩⟩,
     ⟨.name [108], [⟨some (.id 7), 85, [.ty (.struct false (.cons (.ptr (.int 8) 0) (.cons (.int 32) .nil)))],
-                    .clauses true [(false, .ptr (.int 8) 0, .const .null)]⟩],
-      ⟨none, 86, [.tyval (.struct false (.cons (.ptr (.int 8) 0) (.cons (.int 32) .nil))) (.loc (.id 7))], .none⟩⟩]⟩
+                    .clauses true [(false, .ptr (.int 8) 0, .const .null)], []⟩],
+      ⟨none, 86, [.tyval (.struct false (.cons (.ptr (.int 8) 0) (.cons (.int 32) .nil))) (.loc (.id 7))], .none, []⟩⟩]⟩
 
 example : Core3.wf core3Sample = true := by decide +kernel
+example : Core3.mdWF IntLit.hexChoice core3Sample = true := by decide +kernel
 
 end Llir.Props.C01
